@@ -58,6 +58,7 @@ static int g_nplan = 0;
 struct sticky_entry { char op[24]; int err; };
 static struct sticky_entry g_sticky[MAX_PLAN];
 static int g_nsticky = 0;
+static char g_sticky_prefix[PATH_LEN];
 
 /* ------------------------------------------------------------------------------------------ */
 
@@ -219,6 +220,8 @@ static void init_locked(void)
             g_nroots++;
         }
     }
+    const char *sp = getenv("FSX_STICKY_PATH_PREFIX");
+    if (sp && *sp) normalise(sp, g_sticky_prefix);
     const char *plan = getenv("FSX_PLAN");
     if (plan && *plan) parse_plan(plan);
 }
@@ -257,10 +260,16 @@ static struct plan_entry *plan_for(long k)
     return NULL;
 }
 
-static int sticky_for(const char *op)
+/* sticky faults model an environment (e.g. the temp directory on another file system): they apply to operations whose
+ * first path lies under FSX_STICKY_PATH_PREFIX (all paths when it is unset) */
+static int sticky_for(const char *op, const char *p1)
 {
     for (int i = 0; i < g_nsticky; i++)
-        if (!strcmp(g_sticky[i].op, op)) return g_sticky[i].err;
+        if (!strcmp(g_sticky[i].op, op))
+        {
+            size_t n = strlen(g_sticky_prefix);
+            if (n == 0 || (p1 && strncmp(p1, g_sticky_prefix, n) == 0)) return g_sticky[i].err;
+        }
     return 0;
 }
 
@@ -284,7 +293,7 @@ static int op_begin(struct opctx *c)
 {
     c->k = g_counter++;
     c->pe = plan_for(c->k);
-    int st = sticky_for(c->op);
+    int st = sticky_for(c->op, c->p1);
     if (c->pe)
     {
         switch (c->pe->a)
@@ -1019,6 +1028,54 @@ int posix_fallocate(int fd, off_t off, off_t len)
     REAL(posix_fallocate, pfallocate_fn);
     FD_OP("fallocate", fd, real_posix_fallocate(fd, off, len))
 }
+
+/* in-kernel copies: recorded as a write on the destination descriptor */
+typedef ssize_t (*cfr_fn)(int, off_t *, int, off_t *, size_t, unsigned int);
+ssize_t copy_file_range(int fdin, off_t *offin, int fdout, off_t *offout, size_t len, unsigned int flags)
+{
+    REAL(copy_file_range, cfr_fn);
+    if (fdout < 0 || fdout >= FD_MAX) return real_copy_file_range(fdin, offin, fdout, offout, len, flags);
+    LOCK();
+    if (!g_fdstate[fdout])
+    {
+        UNLOCK();
+        return real_copy_file_range(fdin, offin, fdout, offout, len, flags);
+    }
+    struct opctx c = { 0, NULL, "write", g_fdstate[fdout] == 1 ? "w" : "x", g_fdpath[fdout], "", fdout, (long)len };
+    int what = op_begin(&c);
+    ssize_t r;
+    int err = 0;
+    if (what > 0) { r = -1; err = what; }
+    else { r = real_copy_file_range(fdin, offin, fdout, offout, len, flags); err = r < 0 ? errno : 0; }
+    op_end(&c, r, err, what > 0 ? "INJECTED" : "copy_file_range");
+    UNLOCK();
+    if (r < 0) errno = err;
+    return r;
+}
+
+typedef ssize_t (*sendfile_fn)(int, int, off_t *, size_t);
+ssize_t sendfile(int fdout, int fdin, off_t *off, size_t len)
+{
+    REAL(sendfile, sendfile_fn);
+    if (fdout < 0 || fdout >= FD_MAX) return real_sendfile(fdout, fdin, off, len);
+    LOCK();
+    if (!g_fdstate[fdout])
+    {
+        UNLOCK();
+        return real_sendfile(fdout, fdin, off, len);
+    }
+    struct opctx c = { 0, NULL, "write", g_fdstate[fdout] == 1 ? "w" : "x", g_fdpath[fdout], "", fdout, (long)len };
+    int what = op_begin(&c);
+    ssize_t r;
+    int err = 0;
+    if (what > 0) { r = -1; err = what; }
+    else { r = real_sendfile(fdout, fdin, off, len); err = r < 0 ? errno : 0; }
+    op_end(&c, r, err, what > 0 ? "INJECTED" : "sendfile");
+    UNLOCK();
+    if (r < 0) errno = err;
+    return r;
+}
+ssize_t sendfile64(int fdout, int fdin, off_t *off, size_t len) { return sendfile(fdout, fdin, off, len); }
 
 /* ------------------------------------------------------------------------------------- directories */
 
